@@ -420,25 +420,33 @@ func genKernRef(ximage, out string) error {
 		return fmt.Errorf("x/image/webp: no function unfilterAlpha")
 	}
 	ref.Kern["alpha-unfilter"] = map[string]kernOut{}
-	for k := int64(1); k <= 3; k++ {
-		var res kernOut
-		err := kernelEval(func(x *kx) {
-			o := alphaPlane(x, "f", true)
-			x.call(uf, []kval{{kind: kvSlice, obj: o, ln: alphaW * alphaH, cp: alphaW * alphaH}, kint(alphaW), kint(k)}, nil)
-			res = alphaOutputs(x, o)
-		})
-		if err != nil {
-			return fmt.Errorf("unfilterAlpha(filter=%d): %v", k, err)
+	for _, sz := range alphaSizes {
+		alphaW, alphaH = sz[0], sz[1]
+		for k := int64(1); k <= 3; k++ {
+			var res kernOut
+			err := kernelEval(func(x *kx) {
+				o := alphaPlane(x, "f", true)
+				x.call(uf, []kval{{kind: kvSlice, obj: o, ln: alphaW * alphaH, cp: alphaW * alphaH}, kint(alphaW), kint(k)}, nil)
+				res = alphaOutputs(x, o)
+			})
+			if err != nil {
+				return fmt.Errorf("unfilterAlpha(filter=%d, %dx%d): %v", k, alphaW, alphaH, err)
+			}
+			ref.Kern["alpha-unfilter"][fmt.Sprintf("%d@%dx%d", k, alphaW, alphaH)] = res
 		}
-		ref.Kern["alpha-unfilter"][fmt.Sprint(k)] = res
 	}
+	alphaW, alphaH = alphaSizes[0][0], alphaSizes[0][1]
 	b, _ := json.MarshalIndent(ref, "", " ")
 	return os.WriteFile(out, b, 0o644)
 }
 
 // ---- alpha prediction filters (fixed plane size) ----
 
-const alphaW, alphaH = 5, 4
+// plane size used by the alpha-filter rules (set per evaluated size)
+var alphaW, alphaH int64 = 5, 4
+
+// alphaSizes: quick tier uses the first; the thorough tier all (single row, single column, 1x1, 2x2, wide)
+var alphaSizes = [][2]int64{{5, 4}, {1, 1}, {1, 5}, {5, 1}, {2, 2}, {9, 3}}
 
 func alphaPlane(x *kx, name string, input bool) *kobj {
 	o := x.newObj(name)
@@ -781,58 +789,69 @@ func kernelAlphaFilters(c *Ctx, p *Program, ref *kernRef) {
 	unf := dispatchTable(p, pk, func(f *ssa.Function) bool { return f.Pkg == pk && sigIs(f, "[]byte", "int", "int") })
 	fwd := dispatchTable(p, pk, func(f *ssa.Function) bool { return f.Pkg == pk && sigIs(f, "[]byte", "int", "int", "[]byte") })
 	n := 0
-	for k := int64(1); k <= 3; k++ {
-		key := fmt.Sprintf("alpha-filter[%d]", k)
-		u, f := unf[k], fwd[k]
-		if u == nil || f == nil {
-			c.Fail("K4-alpha-filters", key, "", fmt.Sprintf("no unique inverse/forward filter function is dispatched on filter value %d (inverse: %v, forward: %v)", k, u, f))
-			continue
-		}
-		c.Func(FnName(u))
-		c.Func(FnName(f))
-		var got kernOut
-		err := kernelEval(func(x *kx) {
-			o := alphaPlane(x, "f", true)
-			x.call(u, []kval{{kind: kvSlice, obj: o, ln: alphaW * alphaH, cp: alphaW * alphaH}, kint(alphaW), kint(alphaH)}, nil)
-			got = alphaOutputs(x, o)
-		})
-		if err != nil {
-			c.Fail("K4-alpha-filters", key+":inverse", p.Pos(u.Pos()), u.Name()+" could not be reduced to a normal form: "+err.Error())
-			continue
-		}
-		n++
-		d := diffKern(got, ref.Kern["alpha-unfilter"][fmt.Sprint(k)])
-		c.Check(d == "", "K4-alpha-filters", key+":inverse", p.Pos(u.Pos()),
-			fmt.Sprintf("%s reconstructs every cell of a %dx%d plane with the normal form of the reference inverse filter %d", u.Name(), alphaW, alphaH, k),
-			fmt.Sprintf("%s differs from the reference inverse filter %d: %s", u.Name(), k, d))
-		// round trip
-		var rt kernOut
-		err = kernelEval(func(x *kx) {
-			in := alphaPlane(x, "a", true)
-			mid := alphaPlane(x, "m", false)
-			sz := int64(alphaW * alphaH)
-			x.call(f, []kval{{kind: kvSlice, obj: in, ln: sz, cp: sz}, kint(alphaW), kint(alphaH), {kind: kvSlice, obj: mid, ln: sz, cp: sz}}, nil)
-			if len(x.st.mem[in]) != 0 {
-				kfail("the forward filter writes its input plane")
+	sizes := alphaSizes[:1]
+	if c.Tier == "thorough" {
+		sizes = alphaSizes
+	}
+	defer func() { alphaW, alphaH = alphaSizes[0][0], alphaSizes[0][1] }()
+	for _, sz := range sizes {
+		alphaW, alphaH = sz[0], sz[1]
+		for k := int64(1); k <= 3; k++ {
+			key := fmt.Sprintf("alpha-filter[%d]", k)
+			if sz != alphaSizes[0] {
+				key = fmt.Sprintf("alpha-filter[%d]@%dx%d", k, alphaW, alphaH)
 			}
-			x.call(u, []kval{{kind: kvSlice, obj: mid, ln: sz, cp: sz}, kint(alphaW), kint(alphaH)}, nil)
-			rt = alphaOutputs(x, mid)
-		})
-		if err != nil {
-			c.Fail("K4-alpha-filters", key+":round-trip", p.Pos(f.Pos()), f.Name()+" followed by "+u.Name()+" could not be reduced to a normal form: "+err.Error())
-			continue
-		}
-		n++
-		want := kernOut{}
-		for r := 0; r < alphaH; r++ {
-			for cc := 0; cc < alphaW; cc++ {
-				want[fmt.Sprintf("a(%d,%d)", r, cc)] = fmt.Sprintf("0+1*a(%d,%d)", r, cc)
+			u, f := unf[k], fwd[k]
+			if u == nil || f == nil {
+				c.Fail("K4-alpha-filters", key, "", fmt.Sprintf("no unique inverse/forward filter function is dispatched on filter value %d (inverse: %v, forward: %v)", k, u, f))
+				continue
 			}
+			c.Func(FnName(u))
+			c.Func(FnName(f))
+			var got kernOut
+			err := kernelEval(func(x *kx) {
+				o := alphaPlane(x, "f", true)
+				x.call(u, []kval{{kind: kvSlice, obj: o, ln: alphaW * alphaH, cp: alphaW * alphaH}, kint(alphaW), kint(alphaH)}, nil)
+				got = alphaOutputs(x, o)
+			})
+			if err != nil {
+				c.Fail("K4-alpha-filters", key+":inverse", p.Pos(u.Pos()), u.Name()+" could not be reduced to a normal form: "+err.Error())
+				continue
+			}
+			n++
+			d := diffKern(got, ref.Kern["alpha-unfilter"][fmt.Sprintf("%d@%dx%d", k, alphaW, alphaH)])
+			c.Check(d == "", "K4-alpha-filters", key+":inverse", p.Pos(u.Pos()),
+				fmt.Sprintf("%s reconstructs every cell of a %dx%d plane with the normal form of the reference inverse filter %d", u.Name(), alphaW, alphaH, k),
+				fmt.Sprintf("%s differs from the reference inverse filter %d: %s", u.Name(), k, d))
+			// round trip
+			var rt kernOut
+			err = kernelEval(func(x *kx) {
+				in := alphaPlane(x, "a", true)
+				mid := alphaPlane(x, "m", false)
+				sz := int64(alphaW * alphaH)
+				x.call(f, []kval{{kind: kvSlice, obj: in, ln: sz, cp: sz}, kint(alphaW), kint(alphaH), {kind: kvSlice, obj: mid, ln: sz, cp: sz}}, nil)
+				if len(x.st.mem[in]) != 0 {
+					kfail("the forward filter writes its input plane")
+				}
+				x.call(u, []kval{{kind: kvSlice, obj: mid, ln: sz, cp: sz}, kint(alphaW), kint(alphaH)}, nil)
+				rt = alphaOutputs(x, mid)
+			})
+			if err != nil {
+				c.Fail("K4-alpha-filters", key+":round-trip", p.Pos(f.Pos()), f.Name()+" followed by "+u.Name()+" could not be reduced to a normal form: "+err.Error())
+				continue
+			}
+			n++
+			want := kernOut{}
+			for r := int64(0); r < alphaH; r++ {
+				for cc := int64(0); cc < alphaW; cc++ {
+					want[fmt.Sprintf("a(%d,%d)", r, cc)] = fmt.Sprintf("0+1*a(%d,%d)", r, cc)
+				}
+			}
+			d = diffKern(rt, want)
+			c.Check(d == "", "K4-alpha-filters", key+":round-trip", p.Pos(f.Pos()),
+				fmt.Sprintf("%s followed by %s is the identity on every cell of a %dx%d plane, for all sample values", f.Name(), u.Name(), alphaW, alphaH),
+				fmt.Sprintf("%s followed by %s does not reproduce the plane: %s", f.Name(), u.Name(), d))
 		}
-		d = diffKern(rt, want)
-		c.Check(d == "", "K4-alpha-filters", key+":round-trip", p.Pos(f.Pos()),
-			fmt.Sprintf("%s followed by %s is the identity on every cell of a %dx%d plane, for all sample values", f.Name(), u.Name(), alphaW, alphaH),
-			fmt.Sprintf("%s followed by %s does not reproduce the plane: %s", f.Name(), u.Name(), d))
 	}
 	c.Floor("K4-alpha-filters", n, 6)
 }
@@ -851,4 +870,266 @@ func copiedTo(al *ssa.Alloc, g *ssa.Global) bool {
 		}
 	}
 	return false
+}
+
+// K5 (C04): RFC 6386 section 15.1 - the inner edges of a macroblock are loop-filtered only when the
+// macroblock uses 4x4 prediction or has at least one non-zero coefficient. The per-macroblock flag that
+// enables inner-edge filtering must therefore depend on the decoder's non-zero-coefficient summary, not
+// only on the skip flag read from the bitstream.
+func kernelInnerFilterGate(c *Ctx, p *Program) {
+	pk := p.SSAPkg("internal/lossy")
+	if pk == nil {
+		c.AnchorMissing("K5-inner-filter-gate", "package internal/lossy")
+		return
+	}
+	// the flag: a bool field of the per-macroblock filter-info struct that guards calls of the inner-edge
+	// filters. Found by shape: a struct with exactly one bool field next to the byte-sized strength fields,
+	// stored with a value computed from "|| !x" in a function that also calls the residual parser.
+	n := 0
+	for _, fn := range p.SrcFuncs() {
+		if fn.Pkg != pk {
+			continue
+		}
+		for _, b := range fn.Blocks {
+			for _, in := range b.Instrs {
+				st, ok := in.(*ssa.Store)
+				if !ok {
+					continue
+				}
+				fa, ok := st.Addr.(*ssa.FieldAddr)
+				if !ok {
+					continue
+				}
+				stt, ok := fa.X.Type().Underlying().(*types.Pointer).Elem().Underlying().(*types.Struct)
+				if !ok || !isFilterInfoStruct(stt) {
+					continue
+				}
+				if bt, ok := stt.Field(fa.Field).Type().Underlying().(*types.Basic); !ok || bt.Info()&types.IsBoolean == 0 {
+					continue
+				}
+				// only per-macroblock decisions: the stored value is not a plain parameter-free constant
+				// table fill (precomputeFilterStrengths stores "i4x4 != 0")
+				if !dependsOnCallOrLoadOfMBData(st.Val, 0) {
+					continue
+				}
+				n++
+				key := fmt.Sprintf("%s:%s", FnName(fn), stt.Field(fa.Field).Name())
+				c.Func(FnName(fn))
+				ok2 := dependsOnNonZeroSummary(st.Val, map[ssa.Value]bool{}, 0)
+				c.Check(ok2, "K5-inner-filter-gate", key, p.Pos(st.Pos()),
+					"the inner-edge filtering flag depends on the non-zero-coefficient summary of the macroblock",
+					"the flag that enables inner-edge loop filtering is computed from the bitstream skip flag only: a macroblock whose skip flag is 0 but whose coefficients are all zero gets its inner edges filtered, unlike RFC 6386 15.1 / libwebp / x/image (decoded samples differ)")
+			}
+		}
+	}
+	c.Floor("K5-inner-filter-gate", n, 1)
+}
+
+func isFilterInfoStruct(st *types.Struct) bool {
+	nb, nbool := 0, 0
+	for i := 0; i < st.NumFields(); i++ {
+		switch t := st.Field(i).Type().Underlying().(type) {
+		case *types.Basic:
+			if t.Info()&types.IsBoolean != 0 {
+				nbool++
+			} else if t.Kind() == types.Uint8 {
+				nb++
+			} else {
+				return false
+			}
+		default:
+			return false
+		}
+	}
+	return nbool == 1 && nb >= 2 && nb <= 6
+}
+
+func dependsOnCallOrLoadOfMBData(v ssa.Value, depth int) bool {
+	if depth > 8 {
+		return false
+	}
+	switch x := v.(type) {
+	case *ssa.Phi:
+		for _, e := range x.Edges {
+			if dependsOnCallOrLoadOfMBData(e, depth+1) {
+				return true
+			}
+		}
+		// short-circuit: the deciding conditions
+		for _, pr := range x.Block().Preds {
+			if iff, ok := pr.Instrs[len(pr.Instrs)-1].(*ssa.If); ok && dependsOnCallOrLoadOfMBData(iff.Cond, depth+1) {
+				return true
+			}
+		}
+	case *ssa.UnOp:
+		if x.Op.String() == "*" {
+			if fa, ok := x.X.(*ssa.FieldAddr); ok {
+				if _, isPar := fa.X.(*ssa.Parameter); !isPar {
+					return true // a field of a per-macroblock record
+				}
+			}
+			return false
+		}
+		return dependsOnCallOrLoadOfMBData(x.X, depth+1)
+	case *ssa.BinOp:
+		return dependsOnCallOrLoadOfMBData(x.X, depth+1) || dependsOnCallOrLoadOfMBData(x.Y, depth+1)
+	case *ssa.Call:
+		return true
+	}
+	return false
+}
+
+// dependsOnNonZeroSummary: the value depends on an integer field of a per-macroblock record that is
+// compared with zero (the non-zero masks), or on the result of a call.
+func dependsOnNonZeroSummary(v ssa.Value, seen map[ssa.Value]bool, depth int) bool {
+	if depth > 10 || seen[v] {
+		return false
+	}
+	seen[v] = true
+	switch x := v.(type) {
+	case *ssa.Phi:
+		for _, e := range x.Edges {
+			if dependsOnNonZeroSummary(e, seen, depth+1) {
+				return true
+			}
+		}
+		for _, pr := range x.Block().Preds {
+			if iff, ok := pr.Instrs[len(pr.Instrs)-1].(*ssa.If); ok && dependsOnNonZeroSummary(iff.Cond, seen, depth+1) {
+				return true
+			}
+		}
+	case *ssa.UnOp:
+		if x.Op.String() == "*" {
+			if fa, ok := x.X.(*ssa.FieldAddr); ok {
+				if bt, ok := x.Type().Underlying().(*types.Basic); ok && bt.Info()&types.IsInteger != 0 && bt.Kind() != types.Uint8 {
+					_ = fa
+					return true // a wide integer mask of the macroblock record (non-zero bits)
+				}
+			}
+			return false
+		}
+		return dependsOnNonZeroSummary(x.X, seen, depth+1)
+	case *ssa.BinOp:
+		return dependsOnNonZeroSummary(x.X, seen, depth+1) || dependsOnNonZeroSummary(x.Y, seen, depth+1)
+	case *ssa.Call:
+		// the residual parser reporting "no coefficients"
+		if x.Call.Signature().Results().Len() > 0 {
+			return true
+		}
+	case *ssa.Extract:
+		return dependsOnNonZeroSummary(x.Tuple, seen, depth+1)
+	}
+	return false
+}
+
+// K6 (C07): the inverse alpha filter is reached on every successful decode path. The function that
+// dispatches on the filter code (and, level by level, every caller inside the package) returns
+// successfully only through that dispatch; the only accepted bypass is a branch on the filter code
+// itself (filter 0 = nothing to undo). A decoder that returns a raw (uncompressed) plane before the
+// dispatch forgets that the encoder stores filtered planes uncompressed when compression does not pay.
+func kernelUnfilterReached(c *Ctx, p *Program) {
+	pk := p.SSAPkg("internal/lossy")
+	if pk == nil {
+		c.AnchorMissing("K6-unfilter-reached", "package internal/lossy")
+		return
+	}
+	unf := dispatchTable(p, pk, func(f *ssa.Function) bool { return f.Pkg == pk && sigIs(f, "[]byte", "int", "int") })
+	targets := map[*ssa.Function]bool{}
+	for k := int64(1); k <= 3; k++ {
+		if unf[k] != nil {
+			targets[unf[k]] = true
+		}
+	}
+	if len(targets) == 0 {
+		c.AnchorMissing("K6-unfilter-reached", "inverse alpha filters dispatched on the filter code")
+		return
+	}
+	n := 0
+	done := map[*ssa.Function]bool{}
+	for level := 0; level < 4 && len(targets) > 0; level++ {
+		next := map[*ssa.Function]bool{}
+		for _, fn := range p.SrcFuncs() {
+			if fn.Pkg != pk || fn.Blocks == nil || done[fn] || targets[fn] {
+				continue
+			}
+			var tb []*ssa.BasicBlock
+			for _, b := range fn.Blocks {
+				for _, in := range b.Instrs {
+					if call, ok := in.(*ssa.Call); ok {
+						if cal := call.Call.StaticCallee(); cal != nil && targets[cal] {
+							tb = append(tb, b)
+						}
+					}
+				}
+			}
+			if len(tb) == 0 {
+				continue
+			}
+			done[fn] = true
+			n++
+			c.Func(FnName(fn))
+			// nearest common dominator of the call blocks
+			h := tb[0]
+			for _, b := range tb[1:] {
+				for !h.Dominates(b) {
+					h = h.Idom()
+				}
+			}
+			// walk up through the branches on the dispatched value
+			var v ssa.Value
+			if level == 0 {
+				if iff, ok := h.Instrs[len(h.Instrs)-1].(*ssa.If); ok {
+					if cmp, ok := iff.Cond.(*ssa.BinOp); ok {
+						v = cmp.X
+						if _, isC := v.(*ssa.Const); isC {
+							v = cmp.Y
+						}
+					}
+				}
+				for id := h.Idom(); id != nil && v != nil; id = id.Idom() {
+					iff, ok := id.Instrs[len(id.Instrs)-1].(*ssa.If)
+					if !ok {
+						break
+					}
+					cmp, ok := iff.Cond.(*ssa.BinOp)
+					if !ok || (stripConv(cmp.X) != stripConv(v) && stripConv(cmp.Y) != stripConv(v)) {
+						break
+					}
+					h = id
+				}
+			}
+			bad := ""
+			for _, b := range fn.Blocks {
+				ret, ok := b.Instrs[len(b.Instrs)-1].(*ssa.Return)
+				if !ok || !successReturn(ret) {
+					continue
+				}
+				if !h.Dominates(b) {
+					bad = p.Pos(ret.Pos())
+				}
+			}
+			key := fn.Name() + ":success-through-unfilter"
+			c.Check(bad == "", "K6-unfilter-reached", key, p.Pos(fn.Pos()),
+				"every successful return passes the dispatch on the filter code",
+				fmt.Sprintf("%s returns successfully at %s without passing the inverse-filter dispatch: a plane stored with a prediction filter is handed back still filtered (the encoder stores filtered planes uncompressed when compression does not pay)", fn.Name(), bad))
+			if bad == "" && fn.Object() != nil && !fn.Object().Exported() {
+				next[fn] = true
+			}
+		}
+		targets = next
+	}
+	c.Floor("K6-unfilter-reached", n, 1)
+}
+
+func stripConv(v ssa.Value) ssa.Value {
+	for {
+		switch x := v.(type) {
+		case *ssa.Convert:
+			v = x.X
+		case *ssa.ChangeType:
+			v = x.X
+		default:
+			return v
+		}
+	}
 }
